@@ -709,4 +709,71 @@ Definition idle_range (ix : index) (head history cutoff : N) : irange :=
   let bf := if 0 <? mf then last_block_of_map ix (mf - 1) + 1 else 0 in
   mkRange bf (head + 1) true mf nmaps.
 
+(* ------------------------------------------------------------------ *)
+(* indexer.go / map_renderer.go / filtermaps.go at map and epoch granularity: the
+   operations that change the index (abstractions; the Run file does not execute them,
+   their end states are what the correspondence compares through [idle_range]) *)
+Record istate := mkIState { is_chain : list (list log); is_ix : index; is_rg : irange }.
+
+(* rawdb.DeleteFilterMapRows: the rows of maps [from, from+n) read as empty afterwards *)
+Fixpoint clear_maps (maps : list rows) (from n : nat) : list rows :=
+  match maps, from with
+  | [], _ => []
+  | rw :: r, O => match n with O => maps | S k => empty_rows :: clear_maps r O k end
+  | rw :: r, S f => rw :: clear_maps r f n
+  end.
+
+(* filtermaps.go deleteTailEpoch, case "epoch == firstEpoch && epoch+1 < afterLastEpoch":
+   maps.SetFirst(firstEpochMap(epoch+1)), blocks.SetFirst(lastBlock+1) (Range.SetFirst
+   raises afterLast when it is below the new first), then the epoch's rows are deleted *)
+Definition unindex_tail_epoch (st : istate) (e : N) : istate :=
+  let ix := is_ix st in
+  let rg := is_rg st in
+  let bf := last_block_of_map ix (last_epoch_map e) + 1 in
+  let ba := if r_bafter rg <? bf then bf else r_bafter rg in
+  let mpe := N.to_nat (N.shiftl 1 (p_lmpe P)) in
+  mkIState (is_chain st)
+           (mkIndex (clear_maps (ix_maps ix) (N.to_nat (first_epoch_map e)) mpe) (ix_ptrs ix) (ix_end ix))
+           (mkRange bf ba (r_head_indexed rg) (first_epoch_map (e + 1)) (r_mafter rg)).
+
+(* map_renderer.go renderMapsBefore(MaxUint32) + run + writeFinishedMaps towards a new
+   target chain (head extension or reorg), restarting at map m0 = the map after
+   lastCanonicalMapBoundaryBefore: maps >= m0 are replaced by the maps rendered from the
+   new chain, "future" entries are removed, block pointers rewritten; getUpdatedRange with
+   the head finished: blocks.SetLast(head), headIndexed = true *)
+Definition render_head (fuel : nat) (st : istate) (newchain : list (list log)) (m0 : nat)
+  : option istate :=
+  let '(lay, e) := layout_blocks 0 newchain in
+  let vals := all_values lay in
+  let nmaps := N.to_nat ((e - 2) / vpm + 1) in
+  match opt_all (map (render_map fuel vals) (N_seq (N.of_nat m0) (nmaps - m0))) with
+  | None => None
+  | Some newmaps =>
+      let rg := is_rg st in
+      Some (mkIState newchain
+              (mkIndex (firstn m0 (ix_maps (is_ix st)) ++ newmaps) (map fst lay) e)
+              (mkRange (r_bfirst rg) (N.of_nat (length newchain)) true (r_mfirst rg) (N.of_nat nmaps)))
+  end.
+
+(* indexer.go tryIndexTail: the epoch before the first rendered one is rendered from the
+   canonical chain (renderMapsBefore(maps.First)); getUpdatedRange: maps.First moves to the
+   epoch start, blocks.First to the block after lastBlockOfMap(first-1) (0 at genesis) *)
+Definition index_tail_epoch (fuel : nat) (st : istate) : option istate :=
+  let ix := is_ix st in
+  let rg := is_rg st in
+  let mpe := N.shiftl 1 (p_lmpe P) in
+  let mf := r_mfirst rg - mpe in
+  let '(lay, e) := layout_blocks 0 (is_chain st) in
+  let vals := all_values lay in
+  match opt_all (map (render_map fuel vals) (N_seq mf (N.to_nat mpe))) with
+  | None => None
+  | Some newmaps =>
+      let maps := ix_maps ix in
+      let bf := if 0 <? mf then last_block_of_map ix (mf - 1) + 1 else 0 in
+      Some (mkIState (is_chain st)
+              (mkIndex (firstn (N.to_nat mf) maps ++ newmaps ++ skipn (N.to_nat (r_mfirst rg)) maps)
+                       (ix_ptrs ix) (ix_end ix))
+              (mkRange bf (r_bafter rg) (r_head_indexed rg) mf (r_mafter rg)))
+  end.
+
 End LogIndex.
